@@ -43,6 +43,10 @@ def r1_r2(cx):
     if tedge is None: raise AnchorMissing("listen: match on e.kind()")
     arm = cfg.after(tedge, blocked_nodes={acc.bb})
     err_rets = [s for s in ls.stmts() if s.kind == "assign" and s.lhs.l == 0 and s.rv == "agg" and isinstance(s.agg, dict) and s.agg.get("variant") == "Err" and s.bb in arm]
+    if not err_rets:
+        # the error may be built in a helper and travel through `?`: the construction of ErrorKind::Timeout is the site then
+        err_rets = [s for s in ls.stmts() if s.kind == "assign" and s.rv == "agg" and isinstance(s.agg, dict) and s.bb in arm and
+                    ((s.agg.get("variant") == "Timeout" and s.agg.get("adt", "").endswith("ErrorKind")) or (s.agg.get("variant") == "Err" and s.agg.get("adt", "").endswith("Result")))]
     # the countdown: the local compared with the quantum in the Timeout arm
     tw = None
     for b in ls.blocks:
@@ -103,11 +107,22 @@ def r1_r2(cx):
     cx.check(not others, "C15.R1", "varlink:listen:countdown-writers", site, "unexpected writes to the countdown at %s" % [s.sp for s in others], note_ok="%d restarts, 1 decrement" % len(resets))
     # the quantum: unwrap_or(map(stop.as_ref(), |_| K), countdown)
     q = [o for k, o in sl.origins(acc.args[1]) if k == "call"]
-    cl0 = [b for b in cx.mir.bodies("varlink") if b.promoted is None and b.parent == ls.path and b.path.endswith("{closure#0}")]
+    # the constant a closure handed to Option::map returns (`stop.as_ref().map(|_| K)`), or a constant alternative of the quantum
+    from .roles import _closure_args
+    cl0 = []
+    q = q + [o for kk, o in Slice(ls, du, extra_pass=("=unwrap_or", "=unwrap_or_else")).origins(acc.args[1]) if kk == "call"]
+    for t in q:
+        if t.callee.name in ("map", "map_or", "map_or_else"):
+            for pth in _closure_args(ls, du, t):
+                cl0 += [b for b in ls.unit.bodies if b.promoted is None and b.path == pth]
+    if not cl0: cl0 = [b for b in ls.unit.bodies if b.promoted is None and b.parent == ls.path and b.path.endswith("{closure#0}")]
     k = None
     if cl0:
         vals = [s.ops[0].cint() for s in cl0[0].stmts() if s.kind == "assign" and s.lhs.l == 0 and s.ops and s.ops[0].is_const]
         k = vals[0] if len(vals) == 1 else None
+    if k is None:
+        consts = sorted({o.cint() for kk, o in sl.origins(acc.args[1]) if kk == "const" and o.cint() is not None})
+        if len(consts) == 1: k = consts[0]
     cx.check(k is not None and 0 < k <= 1000, "C15.R2", "varlink:listen:poll-quantum", cl0[0].sp if cl0 else site, "poll quantum with a stop flag is %s ms (must be a constant in (0, 1000])" % k, note_ok="%s ms" % k)
     # the flag is loaded on every timed-out poll when configured, true -> Ok(())
     loads = [t for t in ls.calls("=load") if "Atomic" in t.callee.path and t.bb in arm]
